@@ -167,6 +167,9 @@ def conversion_jobs(ctx, g, rnd):
     dgm = sorted({0, 1, -1, D, -D, D - 1, 15 * D // 10, -25 * D // 10, D // 3, 2**167 - 1, -(2**167), 2**100, rnd.randrange(-(2**167), 2**167),
                   rnd.randrange(-(10**12), 10**12)})
     cases = [(a, b) for a in dgm for b in dgm]
+    if ctx.tier == "quick":
+        sub = dgm[::2] + [0, 1]
+        cases = [(a, b) for a in sub for b in sub]
     for (cls, sym, con) in CMPS:
         jobs.append(("dec" + sym, cases, f"flat_map (fun p => encb (dec_cmp_fold {con} (p1 p) (p2 p))) " + triples(cases),
                      lambda c, sym=sym: f"{P.dec_lit(c[0])} {sym} {P.dec_lit(c[1])}", "bool"))
@@ -927,6 +930,15 @@ def constant_probes(ctx, cfg):
     src += "@external\ndef e() -> decimal:\n    return epsilon(decimal)\n@external\ndef dmin() -> decimal:\n    return min_value(decimal)\n" \
            "@external\ndef dmax() -> decimal:\n    return max_value(decimal)\n"
     exp += [("e()", 1, True, "epsilon(decimal)"), ("dmin()", -(2**167), True, "min_value(decimal)"), ("dmax()", 2**167 - 1, True, "max_value(decimal)")]
+    # empty(T): the zero of every word type; method_id: first four bytes of keccak256 (independent library)
+    from eth_utils import keccak
+    for j, tn in enumerate(("uint256", "int8", "bool", "address", "bytes32", "bytes4", "decimal")):
+        src += f"@external\ndef z{j}() -> {tn}:\n    return empty({tn})\n"
+        exp.append((f"z{j}()", 0, False, f"empty({tn})"))
+    for j, sig in enumerate(("transfer(address,uint256)", "f()", "a(uint256[3],bytes32)")):
+        src += f"@external\ndef m{j}() -> bytes4:\n    return method_id(\"{sig}\", output_type=bytes4)\n"
+        exp.append((f"m{j}()", int.from_bytes(keccak(sig.encode())[:4], "big") << 224, False, f"method_id(\"{sig}\")"))
+        src += f"@external\ndef n{j}() -> Bytes[4]:\n    return method_id(\"{sig}\")\n"
     code = P.full_compile(src, cfg)
     if isinstance(code, Exception):
         ctx.violation("correspondence-broken", "min_value/max_value probe contract rejected", {"error": str(code)[:500]})
@@ -936,7 +948,7 @@ def constant_probes(ctx, cfg):
         r = ch.call(addr, P._selector(sig))
         got = P.decode_int(r.out, signed) if r.ok else "revert"
         if got != want:
-            ctx.violation("failing-input", f"{what} folded to a value other than the type bound",
+            ctx.violation("failing-input", f"{what} folded to a value other than expected ({want})",
                           {"source": src, "call": sig, "config": cfg.name, "expected": str(want), "observed": str(got)},
                           key=f"c17:bound:{what}")
     return len(exp)
